@@ -893,15 +893,12 @@ theorem curM_curS (k : Setter) (as : List Arg) :
 /-- no exception: same log, and both sides continue with the unscripted call on the same numbers, computed from the
     time value read at ENTRY (re-entrant setTime calls do not change it) and stored over whatever they wrote -/
 theorem scripted_values (k : Setter) (d : DateObj) (tv : Spec.TV) (as : List Arg) (l : List Nat) (vs : List FV)
-    (h : Spec.convAll ((as.map toSpecArg).take (toSpec k).arity) 0 = (l, some vs))
-    (hst : d.isNaN = false ∨ k = .time ∨ k = .year) :
+    (h : Spec.convAll ((as.map toSpecArg).take (toSpec k).arity) 0 = (l, some vs)) :
     setUTCS k d as = ((setUTC k d vs).1, .ret (setUTC k d vs).2, l) ∧
     Spec.setUTCS (toSpec k) tv (as.map toSpecArg) = (Spec.setUTC (toSpec k) tv vs, .ret (Spec.setUTC (toSpec k) tv vs), l) := by
   have hm := scripted_conversions k as
   rw [h] at hm
-  have hc : ¬ (k ≠ .time ∧ k ≠ .year ∧ d.isNaN = true) := by
-    rcases hst with h1 | h1 | h1 <;> simp [h1]
-  simp [setUTCS, Spec.setUTCS, hm, h, hc]
+  simp [setUTCS, Spec.setUTCS, hm, h]
 
 /-- Date.UTC: the first seven arguments are converted, all of them, in order; an exception propagates with the
     same log; otherwise both sides compute on the same numbers -/
